@@ -428,6 +428,10 @@ def concat (r : Rep) (b : Bytes) : Option Rep :=
 def rconcat (a : Bytes) (r : Rep) : Option Rep :=
   (ofCStr a).bind fun s => s.append (.ext r.toList)
 
+/-- `operator+(const char a, const String& b)`: `String s(a); s += b; return s;` -/
+def rconcatChar (c : UInt8) (r : Rep) : Option Rep :=
+  (ofChar c).bind fun s => s.append (.ext r.toList)
+
 /-- `substring(i, j)`: `String s(j-i, j-i); memcpy(s.str(), str()+i, j-i); s.str()[j-i] = 0;`
     (`i > j` would be a negative size: `none`) -/
 def substring (r : Rep) (i j : Nat) : Option Rep :=
